@@ -24,6 +24,7 @@ func (my *poolImpl) Send(handler Handler, opts ...TaskOption) Task {
 	}
 
 	var options = createTaskOptions(opts)
+	verifYield(VerifSiteSendLen)
 	if options.discardOnBusy && len(my.taskChan) == cap(my.taskChan) {
 		var onError = options.onError
 		if onError != nil {
@@ -34,6 +35,7 @@ func (my *poolImpl) Send(handler Handler, opts ...TaskOption) Task {
 	}
 
 	var task = newTaskCallback(my, handler, options)
+	verifYield(VerifSiteSendEnqueue)
 	select {
 	case my.taskChan <- task:
 	case <-my.closeChan:
@@ -43,6 +45,7 @@ func (my *poolImpl) Send(handler Handler, opts ...TaskOption) Task {
 }
 
 func (my *poolImpl) sendInnerCallback(callback func()) {
+	verifYield(VerifSiteInnerEnqueue)
 	select {
 	case my.innerCallbackChan <- callback:
 	case <-my.closeChan:
@@ -53,6 +56,7 @@ func (my *poolImpl) goDispatchTask(ctx context.Context) {
 	defer loom.DumpIfPanic()
 
 	for {
+		verifYield(VerifSiteDispatchRecv)
 		select {
 		case task := <-my.taskChan:
 			task.run(ctx)
@@ -66,6 +70,7 @@ func (my *poolImpl) goDispatchInnerCallback() {
 	defer loom.DumpIfPanic()
 
 	for {
+		verifYield(VerifSiteInnerRecv)
 		select {
 		case callback := <-my.innerCallbackChan:
 			callback()
